@@ -31,7 +31,16 @@ func init() {
 var c04Methods = []string{"Unary", "ServerStream", "GetParams", "PostParams", "Bidi"}
 
 var c04Msgs = []string{"", "boom", "100% wrong", "line1\r\nline2", "say \"hi\"", "é", "日本語 エラー", "😀 oops", "a%2Fb", "tab\there",
-	"back\\slash", "~!@#$^&*()_+", "nul\x00byte", "semi;colon, comma", "<html>&amp;</html>", strings.TrimSpace(strings.Repeat("long message ", 330))}
+	"back\\slash", "~!@#$^&*()_+", "nul\x00byte", "del\x7fchar", c04AllASCII, "semi;colon, comma", "<html>&amp;</html>", strings.TrimSpace(strings.Repeat("long message ", 330))}
+
+// every 7-bit byte except NUL, so that each one's escaping rule is observed
+var c04AllASCII = func() string {
+	b := make([]byte, 0, 127)
+	for c := 1; c < 128; c++ {
+		b = append(b, byte(c))
+	}
+	return string(b)
+}()
 
 func msgClass(m string) string {
 	switch {
